@@ -1,6 +1,6 @@
 (* C07 - Every contract and result scores what the duplicate scoring table says.
    Only statements, each closed by [exact]; see Proofs/C07.v. *)
-From BE Require Import Model.Score Spec.Duplicate Spec.Domains Gen.ScoreGraph Proofs.C07.
+From BE Require Import Model.Score Spec.Duplicate Spec.Domains Gen.ScoreGraph Gen.ScoreFns Proofs.C07 Proofs.ScoreGen Proofs.ScoreGenCor.
 Open Scope Z_scope.
 
 (* the model equals the running implementation on the complete domain (tie, kernel-checked) *)
@@ -32,3 +32,18 @@ Theorem C07_only_declarers_side : forall l s x xx v v' d t, 0 <= t <= 13 ->
   calc_score (mkcontract (Some (l, s)) x xx v (Some d)) t = calc_score (mkcontract (Some (l, s)) x xx v' (Some d)) t.
 Proof. exact only_declarers_side. Qed.
 Print Assumptions C07_only_declarers_side.
+
+(* ---- the same for the functions REGENERATED from the text of score.py on every run (harness/gen_score.py -> Gen/ScoreFns.v) ---- *)
+Theorem C07_generated_model_is_hand_model : forall k t, g_calc_score k t = calc_score k t.
+Proof. exact g_calc_score_eq. Qed.
+Print Assumptions C07_generated_model_is_hand_model.
+Theorem C07_generated_bid_score_is_hand_model : forall l s x xx vul t, g_calc_bid_score l s x xx vul t = calc_bid_score l s x xx vul t.
+Proof. exact g_calc_bid_score_eq. Qed.
+Theorem C07_all_contracts_generated : forall l s x xx v d t, 0 <= t <= 13 ->
+  g_calc_score (mkcontract (Some (l, s)) x xx v (Some d)) t
+  = Some (dup_score (zlevel l) s (status_of x xx) (declarer_vulnerable d v) t).
+Proof. exact g_all_contracts. Qed.
+Print Assumptions C07_all_contracts_generated.
+Theorem C07_passed_out_generated : forall x xx v d t, g_calc_score (mkcontract None x xx v d) t = Some 0.
+Proof. exact g_passed_out_zero. Qed.
+Print Assumptions C07_passed_out_generated.
